@@ -231,6 +231,10 @@ def _visual(m):
     return out
 
 
+# switched on for the rest of a run once the caller has edited an object it was handed by a mesh (see derived_object_edit)
+OBSERVE_DERIVED_OBJECTS = [False]
+
+
 def observe(kind, o, deep=True):
     """Every public value the statement speaks about, as plain data."""
     import trimesh
@@ -241,6 +245,21 @@ def observe(kind, o, deep=True):
                "density_override": _plain(o._data.data.get("density")), "center_mass_override": _plain(o._data.data.get("center_mass"))}
         if deep and len(o.faces):
             out.update({"area": float(o.area), "bounds": np.array(o.bounds), "face_normals": np.array(o.face_normals), "volume": float(o.volume), "edges_unique": np.array(o.edges_unique), "vertex_normals": np.array(o.vertex_normals), "centroid": np.array(o.centroid)})
+        if deep and OBSERVE_DERIVED_OBJECTS[0] and kind == "mesh" and len(o.vertices) >= 4:
+            # the objects a mesh hands out (its hull, its vertex graph): each mesh has its own
+            try:
+                hull = o.convex_hull
+                out["hull"] = [float(hull.volume), np.array(hull.bounds)]
+            except (KeyboardInterrupt, SystemExit, MemoryError):
+                raise
+            except Exception as e:
+                out["hull"] = type(e).__name__
+            try:
+                out["graph_edges"] = int(o.vertex_adjacency_graph.number_of_edges())
+            except (KeyboardInterrupt, SystemExit, MemoryError):
+                raise
+            except Exception as e:
+                out["graph_edges"] = type(e).__name__
         return out
     if kind == "primitive":
         d = o.to_dict()
@@ -314,7 +333,7 @@ def preread(kind, o, name):
 
 # ----------------------------------------------------------------------------- edits
 EDITS = {
-    "mesh": ["v_item", "v_iadd", "f_flip", "apply_transform", "apply_scale", "color_item", "meta_nested", "meta_new", "attr_item", "density", "center_mass", "update_faces", "invert", "merge_vertices", "assign_vertices", "v_sort", "visual_assign", "color_other_item"],
+    "mesh": ["v_item", "v_iadd", "f_flip", "apply_transform", "apply_scale", "color_item", "meta_nested", "meta_new", "attr_item", "density", "center_mass", "update_faces", "invert", "merge_vertices", "assign_vertices", "v_sort", "visual_assign", "color_other_item", "derived_object_edit"],
     "mesh_texture": ["v_item", "apply_transform", "uv_item", "material_color", "image_pixel", "meta_nested", "update_faces", "material_color_inplace", "uv2_item"],
     "primitive": ["param_set", "param_inplace", "transform_inplace", "apply_transform", "apply_scale", "meta_nested", "density", "apply_translation"],
     "path2d": ["v_item", "entity_points", "entity_color", "entity_layer", "apply_transform", "meta_nested", "entity_reverse", "v_iadd", "vattr_item", "entity_color_inplace", "entity_knots_inplace", "entity_align_inplace"],
@@ -385,6 +404,16 @@ def apply_edit(kind, o, e):
             mask = np.ones(nf, dtype=bool)
             mask[i % nf] = False
             o.update_faces(mask)
+        elif k == "derived_object_edit":
+            # a careless caller edits an object the mesh handed out: the hull is stretched, an edge is cut out of the vertex graph
+            if len(o.vertices) < 4 or not len(o.faces):
+                raise Inapplicable()
+            OBSERVE_DERIVED_OBJECTS[0] = True
+            if i % 2:
+                o.convex_hull.apply_scale(1.5)
+            else:
+                g = o.vertex_adjacency_graph
+                g.remove_edge(*next(iter(g.edges())))
         elif k == "invert":
             o.invert()
         elif k == "merge_vertices":
@@ -742,6 +771,9 @@ class C17(World):
                     return
             ctx.fail(oracle, what + "-observe-raises", f"{type(e).__name__}: {e}")
         want = observe(kind, want_obj)
+        for key in getattr(self, "_ignore_keys", ()):
+            got.pop(key, None)
+            want.pop(key, None)
         if route == "copy_novisual":
             got.pop("visual", None)
             want.pop("visual", None)
@@ -755,6 +787,8 @@ class C17(World):
     def execute(self, program, ctx):
         cfg = program["config"]
         kind = cfg["kind"]
+        OBSERVE_DERIVED_OBJECTS[0] = False
+        self._ignore_keys = set()
         orig = twin_o = cp = twin_c = None
         recipe = None
         pre_edits = []
@@ -781,6 +815,10 @@ class C17(World):
                         ctx.count("exc:" + type(e).__name__)
                     ctx.count("op:preread")
                 elif k == "edit" and cp is None:
+                    if op["edit"] == "derived_object_edit":
+                        # before there is a copy this only spoils the original's own memo (what a mesh reports after its hull was
+                        # scribbled on is C01's question); sharing can only be asked once there are two objects
+                        raise Inapplicable()
                     apply_edit(kind, orig, op)
                     pre_edits.append(op)
                     ctx.count("op:pre-edit")
@@ -843,6 +881,17 @@ class C17(World):
                     ctx.steps_sim += 1
                     ctx.reach(cls, route, op["edit"], side, len(cfg["prereads"]))
                     ctx.event(step, op["edit"], side)
+                    fid = "C17-shallow-copy-shares-memoised-objects"
+                    if op["edit"] == "derived_object_edit" and route in ("copy.copy", "copy_cache") and outcome[-1] == "ok" and ctx.is_known(fid):
+                        # recorded finding: copy.copy(mesh) / copy(include_cache=True) hand the SAME memoised objects (hull mesh, vertex
+                        # graph) to the copy - documented ("shallow copy cached data") and asserted by the repository's own test_copy.
+                        # Predicted: the untouched side differs from its twin in exactly those objects and shows the edited side's values.
+                        other, other_twin = (cp, twin_c) if side == "original" else (orig, twin_o)
+                        go, wo, ge = observe(kind, other), observe(kind, other_twin), observe(kind, target)
+                        differ = [key for key in wo if same(go.get(key), wo[key], 1e-9, key)]
+                        if differ and set(differ) <= {"hull", "graph_edges"} and not any(same(go[key], ge[key], 1e-9, key) for key in differ):
+                            ctx.finding(fid, f"{route}: {differ} of the {'copy' if side == 'original' else 'original'} follow an edit of the other's")
+                            self._ignore_keys |= {"hull", "graph_edges"}
                     # phase 2: each side equals its own twin
                     self._eq(ctx, kind, orig, twin_o, "isolated", f"{cls}/{route}/original-after-{op['edit']}-on-{side}", None)
                     self._eq(ctx, kind, cp, twin_c, "isolated", f"{cls}/{route}/copy-after-{op['edit']}-on-{side}", route)
@@ -850,6 +899,12 @@ class C17(World):
                 ctx.count("skip:inapplicable")
                 continue
         ctx.event("final", cls, route)
+
+    def finding_programs(self, known):
+        recipe = {"attributes": False, "center_mass": None, "colors": None, "density": None, "salt": 1, "mesh": {"base": "octa", "jitter": 0.03, "offset": [0.0, 0.0, 0.0], "salt": 1, "size": 1.0, "variant": "plain"}}
+        edit = {"op": "edit", "side": "copy", "edit": "derived_object_edit", "i": 1, "d": 0.3, "which": 0, "rs": 1, "matrix": np.eye(4).tolist(), "cls": "translation", "theta": 0.5, "s2": 1.0}
+        return [("C17-shallow-copy-shares-memoised-objects", {"config": {"kind": "mesh", "n_edits": 1, "prereads": ["convex_hull"], "route": "copy.copy", "weights": {}}, "seed": 1, "ops": [
+            {"op": "build", "recipe": recipe, "rs": 1}, {"op": "preread", "name": "convex_hull", "rs": 1}, {"op": "copy", "route": "copy.copy", "rs": 1, "quiet": False, "twice": False}, edit]})]
 
     # ------------------------------------------------------------------ shrinking
     def simplify_op(self, op):
